@@ -85,19 +85,21 @@ def smtp_hop(rnd, cfg):
                     'content': list(hdr + body)})
         return [(env, 'id')]
     advertised = []
+    live = []            # the edge sessions, newest last: what the newest one offers NOW is what the client must have seen last
     servers = []
 
     def connect(addr):
         # every connection the relay opens gets its own edge session
         a, b = gsocket.socketpair()
         handlers = SmtpSession(('127.0.0.1', 1), V, handoff)
-        server = Server(b, handlers, ('127.0.0.1', 1), auth=[b'PLAIN'] if cfg['auth'] else False, command_timeout=5.0)
+        server = Server(b, handlers, ('127.0.0.1', 1), auth=[b'PLAIN'] if cfg['auth'] else False, command_timeout=5.0,
+                        context=_srv_ctx() if cfg.get('tls') else None)
         for ext in ('PIPELINING', '8BITMIME', 'SMTPUTF8', 'ENHANCEDSTATUSCODES'):
             if not cfg['ext'].get(ext, True):
                 server.extensions.drop(ext)
         if cfg['size']:
             server.extensions.add('SIZE', cfg['size'])
-        advertised[:] = sorted(server.extensions.extensions.keys()) if not cfg['helo_fallback'] else []
+        live.append(server)
 
         def run():
             try:
@@ -114,12 +116,13 @@ def smtp_hop(rnd, cfg):
             clients.append(sorted(self.client.extensions.extensions.keys()))
             return r
     relay = StaticSmtpRelay('127.0.0.1', 25, socket_creator=connect, client_class=Rec, ehlo_as='relay.example',
-                            connect_timeout=5, command_timeout=5, data_timeout=5, idle_timeout=5 if cfg.get('reuse') else None)
+                            connect_timeout=5, command_timeout=5, data_timeout=5, idle_timeout=5 if cfg.get('reuse') else None,
+                            context=_cli_ctx() if cfg.get('tls') else None)
     outs = []
     for msgno in range(cfg.get('nmsg', 1)):
         del got[:]
         del edge_rcpt[:]
-        outs.append(_one_message(rnd, cfg, relay, got, edge_rcpt, clients, advertised, msgno))
+        outs.append(_one_message(rnd, cfg, relay, got, edge_rcpt, clients, live, msgno))
     gevent.sleep(0.01)
     for g in servers:
         g.kill()
@@ -131,7 +134,23 @@ def smtp_hop(rnd, cfg):
     return outs
 
 
-def _one_message(rnd, cfg, relay, got, edge_rcpt, clients, advertised, msgno):
+def _srv_ctx():
+    from gevent import ssl as gssl
+    from harness.common import WORK
+    c = gssl.SSLContext(gssl.PROTOCOL_TLS_SERVER)
+    c.load_cert_chain(os.path.join(WORK, 'tls', 'cert.pem'), os.path.join(WORK, 'tls', 'key.pem'))
+    return c
+
+
+def _cli_ctx():
+    from gevent import ssl as gssl
+    c = gssl.SSLContext(gssl.PROTOCOL_TLS_CLIENT)
+    c.check_hostname = False
+    c.verify_mode = gssl.CERT_NONE
+    return c
+
+
+def _one_message(rnd, cfg, relay, got, edge_rcpt, clients, live, msgno):
     utf8 = cfg['ext'].get('SMTPUTF8', True) and not cfg['helo_fallback']
     sender = '' if rnd.random() < 0.15 else gen_addr(rnd, utf8)
     rcpts = [gen_addr(rnd, utf8) for _ in range(rnd.randint(1, 5))]
@@ -185,7 +204,8 @@ def _one_message(rnd, cfg, relay, got, edge_rcpt, clients, advertised, msgno):
         res['edge_code'] = edge_rcpt[0]        # no recipient accepted: the transaction ended with the edge's RCPT replies
     ev = list(got)
     if clients:
-        ev.append({'t': 'ext', 'server': [x for x in advertised], 'client': clients[-1]})
+        advertised = sorted(live[-1].extensions.extensions.keys()) if live and not cfg['helo_fallback'] else []
+        ev.append({'t': 'ext', 'server': advertised, 'client': clients[-1]})
     ev.append(res)
     return sent, ev
 
@@ -280,11 +300,12 @@ def main():
         if cfg['mail_reject']:
             cfg['reject'] = 0
             cfg['rcpt_reject'] = False
+        cfg['tls'] = rnd.random() < 0.3 and not cfg['helo_fallback']       # STARTTLS offered: the relay upgrades, then EHLO again
         cfg['reuse'] = rnd.random() < 0.35 and cfg['mail_reject'] != 421     # after a 421 the edge closes: nothing to reuse
         cfg['nmsg'] = rnd.randint(2, 3) if cfg['reuse'] else 1
         for k, (sent, ev) in enumerate(smtp_hop(rnd, cfg)):
             stats['executions'] += 1
-            cls = 'smtp' + ('-helo' if cfg['helo_fallback'] else '') + ('-reject' if cfg['reject'] else '') + ('-rcptreject' if cfg['rcpt_reject'] else '') + ('-mailreject' if cfg['mail_reject'] else '') + ('-big' if cfg['big'] else '') + ('-reuse%d' % k if cfg['reuse'] else '')
+            cls = 'smtp' + ('-helo' if cfg['helo_fallback'] else '') + ('-reject' if cfg['reject'] else '') + ('-rcptreject' if cfg['rcpt_reject'] else '') + ('-mailreject' if cfg['mail_reject'] else '') + ('-big' if cfg['big'] else '') + ('-reuse%d' % k if cfg['reuse'] else '') + ('-tls' if cfg['tls'] else '')
             f.write(json.dumps({'id': shard + n * nshards, 'cls': cls, 'cfg': {'kind': 'smtp', 'reject': cfg['reject']}, 'sent': sent, 'ev': ev},
                                separators=(',', ':')) + '\n')
             n += 1
